@@ -181,13 +181,13 @@ def props_theorems(pid):
             for m in THM.finditer(strip_comments(open(p).read()))]
 
 
-def coq_prove(pid):
+def coq_prove(pid, extra=()):
     """Build everything Props/<pid>.v needs, then compile Props/<pid>.v itself capturing the
     Print Assumptions output.  Returns dict(obligations, discharged, assumptions, ok, log)."""
     thms = props_theorems(pid)
     res = {"obligations": len(thms), "discharged": 0, "ok": False, "assumptions": [], "log": "",
            "theorems": [t for t, _ in thms], "failed_at": None}
-    ok, out, dt = coq_make(["Props/%s.vo" % pid])
+    ok, out, dt = coq_make(["Props/%s.vo" % pid] + list(extra))
     res["make_s"] = round(dt, 1)
     if not ok:
         res["log"] = out[-3000:]
@@ -396,9 +396,10 @@ class Ctx:
                       if k.get("property") == pid and k.get("state") == "known"]
 
     # -- proofs ------------------------------------------------------------------------
-    def proofs(self):
+    def proofs(self, extra=()):
+        """extra: further .vo targets the correspondence needs (model entry points)."""
         bad = scan_forbidden()
-        r = coq_prove(self.pid)
+        r = coq_prove(self.pid, extra)
         self.cov["obligations"] = r["obligations"]
         self.cov["discharged"] = r["discharged"] if not bad else 0
         self.cov["theorems"] = r["theorems"]
